@@ -60,6 +60,7 @@ func cmdDNSPool(args []string) error {
 	host("::1 "+h, "v6", h)
 	host("::ffff:1.2.3.4 "+h, "v6", h)
 	host("1.2.3.4 "+h+"  "+sub+" # both", "v4", h, sub)
+	host("10.0.0.1 "+sub+" # replaces ||"+sub+"^$important and */ads/*", "v4", sub)
 	host(h, "v4", h)
 	host("0.0.0.0 "+coll, "v4", coll)
 	host("::2 "+coll+" "+other, "v6", coll, other)
@@ -72,6 +73,9 @@ func cmdDNSPool(args []string) error {
 	net(func(r *aRule) { r.PermDns = []string{"A"} })
 	net(func(r *aRule) { r.PermCli = []aCli{{K: "name", V: bytesToInts("phone")}} })
 	net(func(r *aRule) { r.RestTag = [][]int{bytesToInts("t1")} })
+	// client given by network: it counts whether or not the request also names the client
+	net(func(r *aRule) { r.PermCli = []aCli{{K: "net", Fam: 4, Bytes: []int{10, 0, 0, 0}, Bits: 8}} })
+	net(func(r *aRule) { r.RestCli = []aCli{{K: "net", Fam: 4, Bytes: []int{10, 0, 0, 5}, Bits: 32}} })
 	net(func(r *aRule) { r.Denyallow = hostsOf([]string{sub}) })
 	net(func(r *aRule) { r.Pat = bytesToInts("||" + coll + "^"); r.White = true })
 	// $denyallow never applies to an IP-address hostname - and a name made of hexadecimal digits is not an address
@@ -93,6 +97,7 @@ func cmdDNSPool(args []string) error {
 	net(func(r *aRule) { r.Badfilter = true; r.Third = "on" })
 	net(func(r *aRule) { r.Important = true; r.Misc = []string{"popup"} })
 	rr := rand.New(rand.NewSource(1))
+	var parseMismatch []string
 	for i := range pool.Entries {
 		e := &pool.Entries[i]
 		if e.Kind == "net" {
@@ -108,14 +113,16 @@ func cmdDNSPool(args []string) error {
 			r, err := rules.NewRule(e.Text, 1)
 			hr, ok := r.(*rules.HostRule)
 			if err != nil || !ok {
-				return fmt.Errorf("pool hosts entry %q: %v", e.Text, err)
+				// the specification says this line is a hosts entry; a parser that makes something else of it loses it
+				parseMismatch = append(parseMismatch, fmt.Sprintf("hosts line %q is not parsed as a hosts entry (%T, %v)", e.Text, r, err))
+				continue
 			}
 			var want []string
 			for _, n := range e.Names {
 				want = append(want, n.String())
 			}
 			if strings.Join(hr.Hostnames, " ") != strings.Join(want, " ") || hr.IP.Is4() != (e.Fam == "v4") {
-				return fmt.Errorf("renderer self-check on hosts entry %q", e.Text)
+				parseMismatch = append(parseMismatch, fmt.Sprintf("hosts line %q: names %v expected, parser gives %v", e.Text, want, hr.Hostnames))
 			}
 		}
 	}
@@ -128,9 +135,14 @@ func cmdDNSPool(args []string) error {
 		for _, dt := range []string{"A", "AAAA"} {
 			for _, cl := range []string{"", "phone"} {
 				for _, tg := range [][]string{{}, {"t1"}} {
-					q := aReq{Hostreq: true, URL: bytesToInts("http://" + name), Host: hostFromString(name), Src: aHost{}, HostIsIP: isIPLiteral(name),
-						HostPsl: realPsl(name), Type: "document", DNSType: dt, Tags: codesOf(tg), Cname: bytesToInts(cl), Cip: aIP{Nil: true}}
-					pool.Queries = append(pool.Queries, q)
+					for _, cip := range []aIP{{Nil: true}, {Fam: 4, Bytes: []int{10, 0, 0, 5}}} {
+						if !cip.Nil && (dt == "AAAA" || len(tg) > 0) {
+							continue // the client address is varied for A queries without tags only
+						}
+						q := aReq{Hostreq: true, URL: bytesToInts("http://" + name), Host: hostFromString(name), Src: aHost{}, HostIsIP: isIPLiteral(name),
+							HostPsl: realPsl(name), Type: "document", DNSType: dt, Tags: codesOf(tg), Cname: bytesToInts(cl), Cip: cip}
+						pool.Queries = append(pool.Queries, q)
+					}
 				}
 			}
 		}
@@ -141,7 +153,7 @@ func cmdDNSPool(args []string) error {
 	}
 	out.write(pool)
 	out.close()
-	summary(map[string]any{"entries": len(pool.Entries), "queries": len(pool.Queries), "note": pool.Note})
+	summary(map[string]any{"entries": len(pool.Entries), "queries": len(pool.Queries), "note": pool.Note, "parse_mismatch": parseMismatch})
 	return nil
 }
 
@@ -220,6 +232,9 @@ func cmdReplayDNS(args []string) error {
 			if tg := codesToStrings(q.Tags); len(tg) > 0 {
 				sort.Strings(tg)
 				dq.SortedClientTags = tg
+			}
+			if !q.Cip.Nil && q.Cip.Fam != 0 {
+				dq.ClientIP = addrOf(q.Cip.Fam, q.Cip.Bytes)
 			}
 			var res *urlfilter.DNSResult
 			var matched bool
